@@ -149,7 +149,9 @@ MISSING = ("missing", "missing-soname", "missing-bare", "missing-bare2")
 # the same two builds under file names that do not follow `lib<name>.so`: a versioned name, an own extension, no extension, a
 # dotted directory.  Next to each lies a DECOY - the other build under the name a "normalised" spelling would give - so that
 # opening anything but the named file shows in the tag of the output (or as a missing library).
-NAMED = {"versioned": ("./libprobe.so.1", 1), "plugin-ext": ("./shapes.plugin", 1), "no-ext": ("./probe_noext", 2), "dotted-dir": ("./build.v2/libprobe.so", 2), "upper-ext": ("./Probe.SO", 1)}
+# "search-path": a BARE file name (no directory part) that the system loader finds through its search path (LD_LIBRARY_PATH points at
+# libs/, the working directory holds no file of that name) - the way shared libraries are normally named
+NAMED = {"search-path": ("libsearch2.so", 2), "versioned": ("./libprobe.so.1", 1), "plugin-ext": ("./shapes.plugin", 1), "no-ext": ("./probe_noext", 2), "dotted-dir": ("./build.v2/libprobe.so", 2), "upper-ext": ("./Probe.SO", 1)}
 DECOYS = {"./libprobe.so.1.so": 2, "./libprobe.so.so": 2, "./shapes.so": 2, "./probe_noext.so": 1, "./build.so": 1, "./Probe.so": 2}
 for _k, (_path, _build) in NAMED.items():
     LIBFILE[_k] = _path
@@ -226,9 +228,9 @@ def build(case):
         exp.append("AFTER")
         asserts = [{"kind": "stdout_eq", "step": "run", "value": "".join(l + "\n" for l in exp)}, {"kind": "exit", "step": "run", "in": ["ok"]}]
     return {"files": {"p/q/r/main.mmm": {"b64": base64.b64encode(data).decode()}}, "symlinks": dict({"p/q/r/libprobe.so": "{PROBE}", "p/q/r/libprobe2.so": "{PROBE2}"},
-                             **{"p/q/r/" + pth[2:]: "{PROBE}" if b == 1 else "{PROBE2}" for pth, b in list(NAMED.values()) + list(DECOYS.items())}),
-            "dirs": ["p/q/r/build.v2"], "cwd": "p/q/r",
-            "steps": [{"id": "run", "argv": ["mscript", "execute", "main.mmm"]}], "asserts": asserts}
+                             **{"p/q/r/" + (pth[2:] if pth.startswith("./") else "libs/" + pth): "{PROBE}" if b == 1 else "{PROBE2}" for pth, b in list(NAMED.values()) + list(DECOYS.items())}),
+            "dirs": ["p/q/r/build.v2", "p/q/r/libs"], "cwd": "p/q/r",
+            "steps": [{"id": "run", "argv": ["mscript", "execute", "main.mmm"], "env": {"LD_LIBRARY_PATH": "{ROOT}/p/q/r/libs"}}], "asserts": asserts}
 
 
 def _flat(text):
@@ -314,8 +316,12 @@ def enumerated(tier, seed):
                 for f2 in ("first", "last", "none", "error", "errtext", "only1"):
                     cases.append({"calls": [C(l1, f1, a1), C(l2, f2, a2)]})
     for l1 in (1, 2):
+        for f1 in ("first", "last", "none", "error"):
+            cases.append({"calls": [C("search-path", f1, a1)]})
+            cases.append({"calls": [C(l1, f1, a1), C("search-path", "last", a2), C(l1, "first", a2)]})
         for m in MISSING:
             cases.append({"calls": [C(l1, "first", a1), C(m, "first", a2)]})
+            cases.append({"calls": [C("search-path", "first", a1), C(m, "first", a2)]})
             cases.append({"calls": [C(l1, "none", a1), C(3 - l1, "last", a2), C(m, "last", a1), C(l1, "first", a2)]})
             cases.append({"calls": [C(m, "first", a1)]})
         cases.append({"calls": [C(l1, "first", a1), C(3 - l1, "first", a2, "probe_does_not_exist")]})
